@@ -1,5 +1,5 @@
 def run(facts, cg):
-    from . import r_openflags, r_storage, r_pairing, r_err, r_tables, r_wire, r_readers, r_untrusted, r_dictwiring, r_trunc, r_misc, r_chunker
+    from . import r_openflags, r_storage, r_pairing, r_err, r_tables, r_wire, r_readers, r_untrusted, r_dictwiring, r_trunc, r_misc, r_chunker, r_readerwiring
     out = {}
     out['r_openflags'] = r_openflags.run(facts, cg)
     out['r_storage'] = r_storage.run(facts, cg)
@@ -13,4 +13,5 @@ def run(facts, cg):
     out['r_trunc'] = r_trunc.run(facts, cg)
     out['r_misc'] = r_misc.run(facts, cg)
     out['r_chunker'] = r_chunker.run(facts, cg)
+    out['r_readerwiring'] = r_readerwiring.run(facts, cg)
     return out
